@@ -3,11 +3,11 @@ CONSTANTS
   Class = "sse"
   Ideal = FALSE
   KSet = {"n"}
-  NW <- W12
-  NR <- W21
+  NW <- W02
+  NR <- W20
   NC <- W11
   WMax = 3
   CMax = 2
-INVARIANTS TypeOK Fifo NoSpuriousError NoLoss RestClose RestRead RestWrite RestNoLoss ClosedStopsWrites
+INVARIANTS TypeOK Fifo NoSpuriousError NoLoss RestAll ClosedStopsWrites
 PROPERTIES ClosedForGood
 CHECK_DEADLOCK FALSE
